@@ -1,14 +1,44 @@
 (* C15 — property theorems only.  Each is closed by [exact] of a lemma proved in
    C15_Proofs.v and followed by Print Assumptions. *)
-Require Import V.Lib V.GoPath V.C15_Model V.C15_Proofs.
+Require Import V.Lib V.GoPath V.Gen_C15 V.C15_Model V.C15_Proofs V.C15_Strings V.C15_IP V.C15_Qualify V.C15_Redirect.
+From Coq Require Import Permutation.
 Open Scope N_scope.
 
 (* ---- "A site is given managed HTTPS exactly when it qualifies" ---- *)
 
-(* markQualifiedForAutoHTTPS is exactly the conjunction: host and listener neither loopback nor
-   internal, tls directive not manual (unless on-demand), not self-signed, email not "off", port not
-   80, scheme not http, and a host name that can receive a public certificate (or on-demand). *)
+(* At full strength, over byte strings, for EVERY site (host, listener, scheme, port and tls flags
+   arbitrary): markQualifiedForAutoHTTPS sets Managed exactly when
+   - the tls directive allows it: not manual (load / certificate files) unless on-demand, not
+     self_signed, email not "off";
+   - the scheme is not http and the port is not 80;
+   - the host is a [public_name] (or certificates are obtained on demand): not empty or blank, no
+     leading or trailing dot, none of certmagic's special characters ()[]{}<> space tab newline quote
+     backslash ! @ # $ % ^ & | ; ' + = (so no bracketed IPv6 literal and no zone), '*' only as one whole
+     left-most label with two more labels behind it, not "localhost", not under .localhost / .local /
+     .home.arpa, not an IP literal (net.ParseIP: dotted quad, any IPv6 form);
+   - neither the host nor the bind address is a [local_address]: the part IsLoopback judges (host of
+     host:port / [host]:port of the LOWERED address, else the address as written) is not "localhost",
+     "::1" inside any brackets, 127.*, *.localhost; the part IsInternal judges (host of host:port, else
+     the address with its brackets trimmed) is not under one of casket's privateTLDs (.example
+     .invalid .test .local — table regenerated from casket.go) and not an IP inside 10/8, 172.16/12,
+     192.168/16 (also as ::ffff:a.b.c.d) or fc00::/7.
+   All predicates on the right are Prop-level statements about lists of bytes (C15_Qualify.v). *)
 Theorem C15_managed_iff_qualifies :
+  forall s : site, mg (tls s) = false ->
+  (mg (tls (mark_one s)) = true <->
+   ((mn (tls s) = false \/ od (tls s) = true) /\ ss (tls s) = false /\ email (tls s) <> bs "off") /\
+   scheme s <> HTTP /\ port s <> P80 /\
+   (od (tls s) = true \/ public_name (host s)) /\
+   ~ local_address (host s) /\ ~ local_address (listen s)).
+Proof. exact managed_iff_declarative. Qed.
+Print Assumptions C15_managed_iff_qualifies.
+
+Example C15_managed_iff_qualifies_nonvacuous :
+  mg (tls (mark_one {| scheme := []; host := bs "example.com"; port := []; listen := []; tls := tls0; redir := None |})) = true.
+Proof. vm_compute. reflexivity. Qed.
+
+(* the same as the code writes it: the conjunction of the classifier calls *)
+Theorem C15_managed_iff_code_conjunction :
   forall s : site, mg (tls s) = false ->
   (mg (tls (mark_one s)) = true <->
    is_loopback (host s) = false /\ is_loopback (listen s) = false /\
@@ -18,11 +48,56 @@ Theorem C15_managed_iff_qualifies :
    (subject_public (host s) = true \/ od (tls s) = true) /\
    scheme s <> HTTP).
 Proof. exact managed_iff_qualifies. Qed.
-Print Assumptions C15_managed_iff_qualifies.
+Print Assumptions C15_managed_iff_code_conjunction.
 
-Example C15_managed_iff_qualifies_nonvacuous :
-  mg (tls (mark_one {| scheme := []; host := bs "example.com"; port := []; listen := []; tls := tls0; redir := None |})) = true.
-Proof. vm_compute. reflexivity. Qed.
+(* the three classifiers, each as an iff with its declarative reading, for every byte string *)
+Theorem C15_public_name_iff : forall h, subject_public h = true <-> public_name h.
+Proof. exact subject_public_iff. Qed.
+Print Assumptions C15_public_name_iff.
+
+Theorem C15_is_loopback_iff :
+  forall a, is_loopback a = true <-> exists x, loopback_judges a x /\ loopback_name x.
+Proof. exact is_loopback_iff. Qed.
+Print Assumptions C15_is_loopback_iff.
+
+Theorem C15_is_internal_iff :
+  forall a, is_internal a = true <-> exists x, internal_judges a x /\ internal_name x.
+Proof. exact is_internal_iff. Qed.
+Print Assumptions C15_is_internal_iff.
+
+(* net.SplitHostPort (model) accepts exactly host:port with host and port free of ':' '[' ']', and
+   [host]:port with host free of brackets and port free of ':' '[' ']' *)
+Theorem C15_split_host_port_spec :
+  forall a h p, split_host_port a = Some (h, p) <->
+    (plain h /\ plain p /\ a = h ++ COLON :: p) \/ (nobr h /\ plain p /\ a = LBR :: h ++ RBR :: COLON :: p).
+Proof. exact split_host_port_spec. Qed.
+Print Assumptions C15_split_host_port_spec.
+
+(* what being Managed then means: TLS enabled, scheme https, port 443 unless a port was written;
+   and a site that does not qualify is left exactly as it was *)
+Theorem C15_qualifying_site_gets_https_443 :
+  forall s, qualifies s = true -> od (tls s) = false ->
+  let s' := enable_one (mark_one s) in
+  mg (tls s') = true /\ en (tls s') = true /\ scheme s' = HTTPS /\ host s' = host s /\
+  port s' = match port s with [] => P443 | _ => port s end /\
+  nr (tls s') = nr (tls s) /\ redir s' = redir s.
+Proof. exact after_callback_qualified. Qed.
+Print Assumptions C15_qualifying_site_gets_https_443.
+
+Example C15_qualifying_site_gets_https_443_nonvacuous :
+  exists s, qualifies s = true /\ od (tls s) = false /\ port (enable_one (mark_one s)) = P443.
+Proof. exists {| scheme := []; host := bs "example.com"; port := []; listen := []; tls := tls0; redir := None |}.
+  vm_compute. auto. Qed.
+
+Theorem C15_unqualified_site_untouched :
+  forall s, mg (tls s) = false -> qualifies s = false -> enable_one (mark_one s) = s.
+Proof. exact after_callback_unqualified. Qed.
+Print Assumptions C15_unqualified_site_untouched.
+
+Example C15_unqualified_site_untouched_nonvacuous :
+  exists s, mg (tls s) = false /\ qualifies s = false /\ host s = bs "www.site.test".
+Proof. exists {| scheme := []; host := bs "www.site.test"; port := []; listen := []; tls := tls0; redir := None |}.
+  vm_compute. auto. Qed.
 
 (* the code's conjunction coincides with the declarative reading of the property on the written
    declaration (scheme/port as written, tls directive as written), for every declaration whose
@@ -139,6 +214,83 @@ Example C15_redirect_never_to_http_port_nonvacuous :
 Proof. eexists. split; [vm_compute; reflexivity|]. split; [vm_compute; reflexivity|]. split; [vm_compute; reflexivity|].
   eexists. split; vm_compute; reflexivity. Qed.
 
+(* ---- redirect synthesis as an iff over whole site SETS ---- *)
+
+(* For EVERY list of sites: makePlaintextRedirects appends sites that are all plain HTTP on :80,
+   at most one per host, and a host h gets one EXACTLY WHEN some TLS-enabled site for h without
+   no_redirect exists that is not explicitly HTTP (port 80 / scheme http), no site for h on port 80
+   exists, and — the rule behind F-C15-2, kept as coded — that site is on :443 or no site for h is.
+   The right-hand side mentions the sites only through membership: no index, no order. *)
+Theorem C15_redirect_exists_iff :
+  forall all, exists extra, make_plaintext_redirects all = all ++ extra /\
+    (forall r, In r extra -> port r = P80 /\ scheme r = [] /\ en (tls r) = false /\ is_synth r = true) /\
+    NoDup (map host extra) /\
+    forall h, (exists r, In r extra /\ host r = h) <->
+      exists c, In c all /\ host c = h /\
+        en (tls c) = true /\ nr (tls c) = false /\ port c <> P80 /\ scheme c <> HTTP /\
+        (forall o, In o all -> host o = h -> port o <> P80) /\
+        (port c = P443 \/ forall o, In o all -> host o = h -> port o <> P443).
+Proof. exact redirect_exists_iff. Qed.
+Print Assumptions C15_redirect_exists_iff.
+
+(* order independence: permuting the declarations permutes nothing but the order of the redirect
+   hosts *)
+Theorem C15_redirect_order_independent :
+  forall all all' extra extra', Permutation all all' ->
+  make_plaintext_redirects all = all ++ extra -> make_plaintext_redirects all' = all' ++ extra' ->
+  Permutation (map host extra) (map host extra').
+Proof. exact redirect_hosts_perm. Qed.
+Print Assumptions C15_redirect_order_independent.
+
+Example C15_redirect_order_independent_nonvacuous :
+  exists all all' extra extra', Permutation all all' /\ all <> all' /\
+    make_plaintext_redirects all = all ++ extra /\ make_plaintext_redirects all' = all' ++ extra' /\
+    length extra = 1%nat.
+Proof.
+  exists [w_tls_site (bs "8443"); w_tls_site (bs "9443")], [w_tls_site (bs "9443"); w_tls_site (bs "8443")].
+  eexists. eexists. split; [apply perm_swap|]. split; [discriminate|].
+  split; [vm_compute; reflexivity|]. split; [vm_compute; reflexivity|reflexivity].
+Qed.
+
+(* what a redirect names: always the port of an eligible TLS site of its host (omitted for 443) ... *)
+Theorem C15_redirect_target_is_a_tls_site :
+  forall all extra r, make_plaintext_redirects all = all ++ extra -> In r extra ->
+  exists c, In c all /\ host c = host r /\ en (tls c) = true /\ nr (tls c) = false /\
+            port c <> P80 /\ scheme c <> HTTP /\ redir r = Some (redir_port c).
+Proof. exact redirect_target_is_a_tls_site. Qed.
+Print Assumptions C15_redirect_target_is_a_tls_site.
+
+(* ... "the named port does not depend on the order of the declarations" is false (two TLS sites of
+   one host on 8443 and 9443: the first one wins) ... *)
+Theorem C15_redirect_target_order_independent_refuted :
+  exists all all', Permutation all all' /\
+    map redir (skipn (length all) (make_plaintext_redirects all)) <>
+    map redir (skipn (length all') (make_plaintext_redirects all')).
+Proof. exact redirect_target_order_refuted. Qed.
+Print Assumptions C15_redirect_target_order_independent_refuted.
+
+(* ... and true as soon as the host has a site on :443: no port in the Location, whatever the order *)
+Theorem C15_redirect_target_order_independent_partial :
+  forall all extra r o, make_plaintext_redirects all = all ++ extra -> In r extra ->
+  In o all -> host o = host r -> port o = P443 -> redir r = Some [].
+Proof. exact redirect_target_with_443. Qed.
+Print Assumptions C15_redirect_target_order_independent_partial.
+
+Example C15_redirect_target_order_independent_partial_nonvacuous :
+  exists all extra r o, make_plaintext_redirects all = all ++ extra /\ In r extra /\ In o all /\
+    host o = host r /\ port o = P443.
+Proof.
+  exists [w_tls_site (bs "443")]. eexists. eexists. exists (w_tls_site (bs "443")).
+  split; [vm_compute; reflexivity|]. split; [left; reflexivity|]. split; [left; reflexivity|]. split; reflexivity.
+Qed.
+
+(* many TLS sites of one host on different ports: one redirect site (the instance the seeded
+   first-same-host-sibling change C15-m4 breaks) *)
+Example C15_redirect_unique_many_ports :
+  map (fun s => (host s, port s)) (skipn 3 (make_plaintext_redirects
+     [w_tls_site (bs "8443"); w_tls_site (bs "9443"); w_tls_site (bs "7443")])) = [(bs "example.com", P80)].
+Proof. exact redirect_unique_many_ports. Qed.
+
 (* ---- the redirect handler ---- *)
 
 (* for every host h — a name (no colon, no brackets) or a bracketed IPv6 literal —, with or without
@@ -164,16 +316,115 @@ Proof.
   split; vm_compute; reflexivity.
 Qed.
 
+(* the whole response, for EVERY Host header value hh (well-formed or not), redirect port and request
+   URI: 301, Connection: close, and Location = https:// x [:redirPort] uri where x is what [kept_host]
+   describes: hh minus ":port" when hh is host:port or [host]:port (brackets kept), hh itself otherwise *)
+Theorem C15_redirect_response_total :
+  forall rport hh uri, exists x,
+    ((exists h p, plain h /\ plain p /\ hh = h ++ COLON :: p /\ x = h) \/
+     (exists h p, nobr h /\ plain p /\ hh = LBR :: h ++ RBR :: COLON :: p /\ x = LBR :: h ++ [RBR]) \/
+     ((forall h p, ~ splits hh h p) /\ x = hh)) /\
+    redir_response rport hh uri =
+      (301, hex_escape_non_ascii (bs "https://" ++ x ++ port_part rport ++ uri), bs "close").
+Proof. exact redir_response_total. Qed.
+Print Assumptions C15_redirect_response_total.
+
+(* the three descriptions exclude each other: x is determined by hh *)
+Theorem C15_redirect_kept_host_unique :
+  forall hh x y, kept_host hh x -> kept_host hh y -> x = y.
+Proof. exact kept_host_functional. Qed.
+Print Assumptions C15_redirect_kept_host_unique.
+
+Example C15_redirect_kept_host_unique_nonvacuous : kept_host (bs "example.com:80") (bs "example.com").
+Proof.
+  left. exists (bs "example.com"), (bs "80"). split; [|split; [|split; reflexivity]];
+    intros c Hc; vm_compute in Hc; repeat (destruct Hc as [<-|Hc]; [repeat split; discriminate|]); destruct Hc.
+Qed.
+
+(* a request without a Host header (HTTP/1.0): nothing is kept — the Location is https://[:port]uri *)
+Theorem C15_redirect_no_host :
+  forall rport uri,
+  redir_response rport [] uri = (301, hex_escape_non_ascii (bs "https://" ++ port_part rport ++ uri), bs "close").
+Proof. exact redir_response_no_host. Qed.
+Print Assumptions C15_redirect_no_host.
+
 Theorem C15_redirect_location_ascii_verbatim :
   forall s, (forall c, In c s -> c < 128) -> hex_escape_non_ascii s = s.
 Proof. exact hex_escape_ascii. Qed.
 Print Assumptions C15_redirect_location_ascii_verbatim.
 
-(* ---- classifier lemmas ---- *)
+(* ---- classifier lemmas: corollaries of the iff ---- *)
 Theorem C15_ip_never_qualifies :
   forall s ip, parse_ip (host s) = Some ip -> od (tls s) = false -> qualifies s = false.
 Proof. exact ip_never_qualifies. Qed.
 Print Assumptions C15_ip_never_qualifies.
+
+Example C15_ip_never_qualifies_nonvacuous :
+  exists ip, parse_ip (bs "2001:db8::1") = Some ip /\ exists ip', parse_ip (bs "8.8.8.8") = Some ip'.
+Proof. eexists. split; [vm_compute; reflexivity|]. eexists. vm_compute. reflexivity. Qed.
+
+(* an IP literal in every written form — bare, in brackets, with a zone, in brackets with a zone —
+   is never managed *)
+Theorem C15_ip_literal_never_managed :
+  forall s h ip zone, mg (tls s) = false -> parse_ip h = Some ip ->
+  host s = h \/ host s = LBR :: h ++ [RBR] \/ host s = h ++ PERCENT :: zone \/ host s = LBR :: h ++ PERCENT :: zone ++ [RBR] ->
+  od (tls s) = false -> mg (tls (enable_one (mark_one s))) = false.
+Proof. exact ip_literal_never_managed. Qed.
+Print Assumptions C15_ip_literal_never_managed.
+
+Example C15_ip_literal_never_managed_nonvacuous :
+  exists ip, parse_ip (bs "fe80::1") = Some ip /\ parse_ip (bs "::ffff:10.0.0.1") = Some (v4_mapped [10; 0; 0; 1]).
+Proof. eexists. split; vm_compute; reflexivity. Qed.
+
+(* every dotted quad a.b.c.d (decimal fields 0..255 without leading zeros) is an IP literal ... *)
+Theorem C15_dotted_quad_is_ip :
+  forall fa fb fc fd a b c d,
+  v4_field fa = Some a -> v4_field fb = Some b -> v4_field fc = Some c -> v4_field fd = Some d ->
+  parse_ip (fa ++ DOT :: fb ++ DOT :: fc ++ DOT :: fd) = Some (v4_mapped [a; b; c; d]).
+Proof. exact dotted_quad_is_ip. Qed.
+Print Assumptions C15_dotted_quad_is_ip.
+
+Example C15_dotted_quad_is_ip_nonvacuous :
+  v4_field (bs "203") = Some 203 /\ v4_field (bs "0") = Some 0 /\ v4_field (bs "113") = Some 113 /\ v4_field (bs "7") = Some 7.
+Proof. repeat split; vm_compute; reflexivity. Qed.
+
+(* net.ParseIP (model) only returns 16-byte addresses with bytes below 256 ... *)
+Theorem C15_parse_ip_16_bytes :
+  forall s ip, parse_ip s = Some ip -> length ip = 16%nat /\ Forall (fun b => b < 256) ip.
+Proof. exact parse_ip_ok. Qed.
+Print Assumptions C15_parse_ip_16_bytes.
+
+(* ... and on those, the loop over privateNetworks with IPNet.Contains (table regenerated from
+   casket.go: address and mask bytes as net.ParseCIDR yields them) says "private" exactly for
+   10/8, 172.16/12, 192.168/16 — on the To4 form, i.e. also for ::ffff:a.b.c.d — and fc00::/7.
+   Not in the table, hence not internal: ::1 and 127/8 (left to IsLoopback's string tests),
+   fe80::/10 link-local, 169.254/16, 100.64/10. *)
+Theorem C15_private_net_iff :
+  forall s ip, parse_ip s = Some ip ->
+  (in_private_net ip = true <->
+   (exists a b c d, to4 ip = Some [a; b; c; d] /\
+      (a = 10 \/ (a = 172 /\ 16 <= b <= 31) \/ (a = 192 /\ b = 168))) \/
+   (to4 ip = None /\ exists b0 r, ip = b0 :: r /\ 252 <= b0 <= 253)).
+Proof. exact in_private_net_iff. Qed.
+Print Assumptions C15_private_net_iff.
+
+Example C15_private_net_iff_nonvacuous :
+  map (fun s => match parse_ip s with Some ip => in_private_net ip | None => false end)
+      [bs "10.1.2.3"; bs "::ffff:172.31.0.1"; bs "fd00::1"; bs "fe80::1"; bs "::1"; bs "172.32.0.1"; bs "::ffff:8.8.8.8"]
+  = [true; true; true; false; false; false; false].
+Proof. vm_compute. reflexivity. Qed.
+
+(* in particular the IPv6 loopback, link-local (fe80::/10), unspecified and global addresses are not
+   "internal": nothing outside fc00::/7 is, unless it is a v4-mapped private address *)
+Theorem C15_v6_outside_fc00_not_internal :
+  forall s ip b0 r, parse_ip s = Some ip -> ip = b0 :: r -> to4 ip = None -> ~ (252 <= b0 <= 253) ->
+  in_private_net ip = false.
+Proof. exact v6_outside_fc00_not_internal. Qed.
+Print Assumptions C15_v6_outside_fc00_not_internal.
+
+Example C15_v6_outside_fc00_not_internal_nonvacuous :
+  exists ip r, parse_ip (bs "fe80::1") = Some ip /\ ip = 254 :: r /\ to4 ip = None.
+Proof. eexists. eexists. split; [vm_compute; reflexivity|]. split; reflexivity. Qed.
 
 Theorem C15_empty_host_never_qualifies :
   forall s, host s = [] -> od (tls s) = false -> qualifies s = false.
@@ -187,8 +438,99 @@ Theorem C15_loopback_name_never_qualifies :
 Proof. exact loopback_name_never_qualifies. Qed.
 Print Assumptions C15_loopback_name_never_qualifies.
 
+Example C15_loopback_name_never_qualifies_nonvacuous :
+  contains_byte COLON (bs "a.b.localhost") = false /\ has_suffix (bs "a.b.localhost") (bs ".localhost") = true.
+Proof. split; vm_compute; reflexivity. Qed.
+
 Theorem C15_internal_suffix_never_public :
   forall h, has_suffix h (bs ".localhost") = true \/ has_suffix h (bs ".local") = true \/ has_suffix h (bs ".home.arpa") = true ->
   subject_public h = false.
 Proof. exact internal_suffix_never_public. Qed.
 Print Assumptions C15_internal_suffix_never_public.
+
+(* A name under an internal-only suffix is never managed, WHATEVER stands in front of the suffix:
+   q is any colon-free byte string — no label, one label, or any number of labels.  The reason is in
+   the model: IsInternal tests strings.HasSuffix(host, tld) on the whole host for every entry of
+   privateTLDs (and certmagic does the same for its own suffixes); it is not a comparison of the
+   tld with what follows the FIRST dot, which would hold for two-label names only (the seeded change
+   C15-m3: www.site.test would become Managed). *)
+Theorem C15_internal_suffix_never_managed :
+  forall s q suf, mg (tls s) = false ->
+  host s = q ++ suf -> In suf (gen_c15_private_tlds ++ gen_c15_cert_internal_suffixes) ->
+  ~ In COLON q -> od (tls s) = false ->
+  mg (tls (enable_one (mark_one s))) = false /\ en (tls (enable_one (mark_one s))) = en (tls s).
+Proof. exact internal_suffix_never_managed. Qed.
+Print Assumptions C15_internal_suffix_never_managed.
+
+Example C15_internal_suffix_never_managed_nonvacuous :
+  bs "api.v2.corp.example" = bs "api.v2.corp" ++ bs ".example" /\
+  In (bs ".example") (gen_c15_private_tlds ++ gen_c15_cert_internal_suffixes) /\ ~ In COLON (bs "api.v2.corp") /\
+  is_internal (bs "www.site.test") = true /\ is_internal (bs "db.cluster.invalid") = true.
+Proof.
+  split; [reflexivity|]. split; [vm_compute; tauto|]. split; [|split; vm_compute; reflexivity].
+  intros H. vm_compute in H. repeat (destruct H as [H|H]; [discriminate H|]). exact H.
+Qed.
+
+(* every suffix the property text names (.localhost .local .test .example .invalid) is an entry of
+   one of the regenerated tables *)
+Theorem C15_property_suffixes_in_tables :
+  forallb (fun suf => existsb (beq suf) (gen_c15_private_tlds ++ gen_c15_cert_internal_suffixes ++ gen_c15_loopback_suffixes))
+          [bs ".localhost"; bs ".local"; bs ".test"; bs ".example"; bs ".invalid"] = true.
+Proof. exact property_suffixes_in_tables. Qed.
+Print Assumptions C15_property_suffixes_in_tables.
+
+(* a name with one of certmagic's special characters anywhere, with a trailing or a leading dot *)
+Theorem C15_special_char_never_public :
+  forall h c, In c h -> In c cert_special -> subject_public h = false.
+Proof. exact special_char_never_public. Qed.
+Print Assumptions C15_special_char_never_public.
+
+Example C15_special_char_never_public_nonvacuous :
+  In LBR (bs "[::1]") /\ In LBR cert_special /\ In PERCENT cert_special /\ In 32 cert_special.
+Proof. repeat split; vm_compute; tauto. Qed.
+
+Theorem C15_trailing_dot_never_public : forall q, subject_public (q ++ [DOT]) = false.
+Proof. exact trailing_dot_never_public. Qed.
+Print Assumptions C15_trailing_dot_never_public.
+
+Theorem C15_leading_dot_never_public : forall r, subject_public (DOT :: r) = false.
+Proof. exact leading_dot_never_public. Qed.
+Print Assumptions C15_leading_dot_never_public.
+
+(* letter case.  Site hosts reach the classifiers lower-cased (Address.Normalize; the check verifies
+   that on every case) — bind arguments do not.  "IsLoopback ignores letter case" is false for an
+   address without a port (SplitHostPort fails, the address is judged as written) ... *)
+Theorem C15_loopback_case_insensitive_refuted :
+  exists a, is_loopback (to_lower a) = true /\ is_loopback a = false /\ is_internal a = false /\ subject_public a = true.
+Proof. exact is_loopback_case_refuted. Qed.
+Print Assumptions C15_loopback_case_insensitive_refuted.
+
+(* ... and true whenever the address carries a port *)
+Theorem C15_loopback_case_insensitive_partial :
+  forall a h p, splits (to_lower a) h p -> is_loopback a = is_loopback (to_lower a).
+Proof. exact is_loopback_case_with_port. Qed.
+Print Assumptions C15_loopback_case_insensitive_partial.
+
+Example C15_loopback_case_insensitive_partial_nonvacuous :
+  splits (to_lower (bs "LOCALHOST:80")) (bs "localhost") (bs "80") /\ is_loopback (bs "LOCALHOST:80") = true.
+Proof.
+  split; [|vm_compute; reflexivity]. left. split; [|split; [|reflexivity]];
+    intros c Hc; vm_compute in Hc; repeat (destruct Hc as [<-|Hc]; [repeat split; discriminate|]); destruct Hc.
+Qed.
+
+(* "every spelling of the IPv6 loopback address is loopback" is false (string comparison with "::1"
+   only); what holds: "::1" inside any run of brackets; and an IP literal host is never managed anyway
+   (C15_ip_literal_never_managed) — the gap concerns bind arguments only *)
+Theorem C15_loopback_v6_spellings_refuted :
+  exists a, parse_ip a = parse_ip (bs "::1") /\ is_loopback a = false /\ is_internal a = false.
+Proof. exact loopback_v6_spelling_refuted. Qed.
+Print Assumptions C15_loopback_v6_spellings_refuted.
+
+Theorem C15_loopback_v6_spellings_partial :
+  forall l r, all_in BRACKETS l -> all_in BRACKETS r -> is_loopback_host (l ++ bs "::1" ++ r) = true.
+Proof. exact loopback_v6_canonical. Qed.
+Print Assumptions C15_loopback_v6_spellings_partial.
+
+Example C15_loopback_v6_spellings_partial_nonvacuous :
+  all_in BRACKETS [LBR] /\ all_in BRACKETS [RBR] /\ is_loopback (bs "[::1]:443") = true.
+Proof. split; [intros c [<-|[]]; left; reflexivity|]. split; [intros c [<-|[]]; right; left; reflexivity|]. vm_compute. reflexivity. Qed.
